@@ -624,4 +624,32 @@ theorem C03_code_write_alloy (I : String → Nat → Rat → Rat) (hI : ZeroFn I
   unfold setfl_write_alloy
   rfl
 
+open Atsim.Gen.Logic in
+/-- the `dr` property of the tabulation object is the model's step -/
+theorem eamtab_dr_eq (nr nrho : Nat) (cut cutrho : Rat) (a : List EamRec) (b c d : List PotRec) :
+    eamtab_dr ⟨(nr : Int), cut, (nrho : Int), cutrho, a, b, c, d⟩ = tabStep cut nr := by
+  simp only [eamtab_dr, tabStep]
+  push_cast
+  rfl
+
+open Atsim.Gen.Logic in
+/-- the `drho` property of the tabulation object is the model's step -/
+theorem eamtab_drho_eq (nr nrho : Nat) (cut cutrho : Rat) (a : List EamRec) (b c d : List PotRec) :
+    eamtab_drho ⟨(nr : Int), cut, (nrho : Int), cutrho, a, b, c, d⟩ = tabStep cutrho nrho := by
+  simp only [eamtab_drho, tabStep]
+  push_cast
+  rfl
+
+open Atsim.Gen.Logic Atsim.TokSem in
+/-- **code tie (the tabulation object)**: `SetFL_EAMTabulation.write` as regenerated (`nrho`, the `drho` property, `nr`, the `dr` property, the two lists, default
+    comments and cutoff) writes the model's `setflTab false`: steps `cutoff_rho/(nrho-1)` and `cutoff/(nr-1)`, three empty comment lines, cutoff field `nr*dr` -/
+theorem C03_code_tabulation_write (I : String → Nat → Rat → Rat) (hI : ZeroFn I) (els : List El) (pairs dip quad : List PairDecl)
+    (cut : Rat) (nr : Nat) (cutrho : Rat) (nrho : Nat) (out : List Tok) :
+    streamSem I (setfl_tab_write ⟨(nr : Int), cut, (nrho : Int), cutrho, els.map toEam, pairs.map toPot, dip.map toPot, quad.map toPot⟩ out) =
+      streamSem I out ++ setflSem I ["", "", ""] ((nr : Rat) * tabStep cut nr) (setflTab false els pairs cut nr cutrho nrho) := by
+  unfold setfl_tab_write
+  simp only [eamtab_dr_eq, eamtab_drho_eq]
+  rw [C03_code_write_alloy I hI]
+  rfl
+
 end Atsim.C03
